@@ -207,10 +207,17 @@ class NP:
         ist = cx.st(it)
         if ist.kind == 'b':
           # boolean mask over ist.rank axes
-          cnt = fresh('nsel', z3.IntSort())
+          # the number of selected entries is a function of the mask: the same mask selects the same count
+          cache = p.heap.setdefault('__maskcount__', {})
+          ckey = (it.loc, ist.version)
           tot = ist.shape.size()
-          p.assume(cnt >= 0)
-          p.assume(cnt <= tot)
+          if ckey in cache:
+            cnt = cache[ckey]
+          else:
+            cnt = fresh('nsel', z3.IntSort())
+            cache[ckey] = cnt
+            p.assume(cnt >= 0)
+            p.assume(cnt <= tot)
           if ist.tag and ist.tag[0] == 'min-count':
             p.assume(cnt >= ist.tag[1])
           if adv_dims is None:
@@ -344,6 +351,8 @@ class NP:
   # ---------------------------------------------------------------------------------------- operators
   def operand(self, cx, v):
     """-> (term or None, dims, kind, scalar_z3 or None)"""
+    if isinstance(v, (VStr, VNone)):
+      return None, [], 'O', None          # comparison of an array with a string / None: elementwise, all False
     if isinstance(v, VArr):
       st = cx.st(v)
       if not st.shape.concrete:
@@ -435,6 +444,14 @@ class NP:
   def arr_truth(self, cx, v):
     st = cx.st(v)
     if st.shape.concrete and st.shape.rank == 0:
+      return fresh('truth', z3.BoolSort())
+    if st.shape.concrete:
+      # numpy: ValueError for more than one element (DeprecationWarning / error for zero elements)
+      bad = cx.p.fork()
+      bad.assume(st.shape.size() != 1)
+      if feasible(bad.pc):
+        cx.ex.raise_(bad, 'ValueError', 'the truth value of an array with more than one element is ambiguous (line %s)' % cx.line())
+      cx.p.assume(st.shape.size() == 1)
       return fresh('truth', z3.BoolSort())
     raise Unsupported('truth value of an array (line %s)' % cx.line())
 
